@@ -449,18 +449,18 @@ class Check:
         return any(k['id'] == kid for k in self.known)
 
     # -- proofs
-    def prove(self, prop_file, requires, extra=()):
+    def prove(self, prop_file, requires, extra=(), titems=()):
         """Build Props/Cxx.vo (after re-translation), audit it. Records obligations."""
         target = prop_file[:-2] + '.vo'
         ok, log, tstatus = coq_build([target] + list(extra))
         self.coverage['translator'] = {k: {kk: vv for kk, vv in v.items() if kk in ('ok', 'sha', 'reason')}
-                                       for k, v in tstatus.items()}
+                                       for k, v in tstatus.items() if k in titems}
         names = theorem_names(prop_file)
         self.coverage['obligations'] = len(names)
         self.coverage['checker_cmd'] = 'tools/translate.py && make -C coq %s && coqc Print Assumptions audit' % target
         self.coverage['theorems'] = names
         for k, v in tstatus.items():
-            if not v.get('ok'):
+            if not v.get('ok') and k in titems:
                 self.broken.append({'kind': 'translator', 'item': k, 'detail': v.get('reason', '')})
         if not ok:
             m = re.search(r'File "([^"]+)", line (\d+)[^\n]*\n(?:.*\n){0,12}', log)
